@@ -1319,6 +1319,8 @@ fn execute_match(
                         None
                     }
                 }
+                // the fill itself consumed no fee: the whole share tied to the refunded quote goes back
+                (None, Some(original_bid_fee)) => Some(original_bid_fee),
                 (_, _) => None,
             }
         };
